@@ -161,8 +161,11 @@ func (t *Typedef) resolve(d *typeDictionary) []error {
 // cannot be resolved then one or more errors are returned.
 func (t *Type) resolve(d *typeDictionary) (errs []error) {
 	if t.YangType != nil {
-		return nil
+		// Report the errors of the first resolution again, otherwise a
+		// type that failed to resolve would look valid from now on.
+		return t.resolveErrs
 	}
+	defer func() { t.resolveErrs = errs }()
 
 	// If t.Name is a base type then td will not be nil, otherwise
 	// td will be nil and of type *Typedef.
